@@ -210,6 +210,40 @@ def run(tier, seed):
                             ('Struct("o"/Struct("i"/Array(3, "e"/Byte)))', dict(o=dict(i=[1, 2, 3, 4, 5])), ['o', 'i'])]:
         acc.check('build_path', src, obj=obj, names=names)
         cases.append(dict(src=src, op='build', obj=obj))
+    # a failing field under a wrapper that stands between two names: the wrapper neither drops the names around it nor adds one
+    inner = 'Struct("kind"/Byte, "size"/Int16ub)'
+    for w, mk, parse_too in [('RawCopy(%s)', 'value', True), ('Prefixed(Byte, %s)', None, False), ('FixedSized(8, %s)', None, False), ('Padded(8, %s)', None, False),
+                             ('Aligned(4, %s)', None, True), ('NullTerminated(%s)', None, False), ('Bitwise(Bytewise(%s))', None, False), ('Pointer(2, %s)', None, False),
+                             ('ByteSwapped(%s)', None, False), ('IfThenElse(True, %s, Pass)', None, True), ('Switch(1, {1: %s})', None, True), ('Lazy(%s)', None, False),
+                             ('Hex(%s)', None, True), ('Default(%s, None)', None, True), ('Array(1, %s)', 'list', True), ('ProcessXor(1, %s)', None, False),
+                             ('LazyBound(lambda: %s)', None, True), ('NullStripped(%s)', None, False), ('Compressed(%s, "zlib")', None, False), ('RawCopy(RawCopy(%s))', 'value2', True),
+                             ('Prefixed(Byte, RawCopy(%s))', 'value', False), ('RawCopy(Prefixed(Byte, %s))', 'value', False)]:
+        wsrc = 'Struct("hdr"/Struct("k"/Byte, "fields"/%s), "t"/Byte)' % (w % inner)
+        for size, good in ((70000, False), (513, True)):
+            v = dict(kind=1, size=size)
+            v = dict(value=v) if mk == 'value' else dict(value=dict(value=v)) if mk == 'value2' else [v] if mk == 'list' else v
+            obj = dict(hdr=dict(k=1, fields=v), t=2)
+            if not good:
+                acc.check('build_path', wsrc, obj=obj, names=['hdr', 'fields', 'size'])
+                cases.append(dict(src=wsrc, op='build', obj=obj))
+            elif parse_too:
+                d = C.get(wsrc).build(obj)
+                acc.check('parse_path', wsrc, data=d[:3], names=['hdr', 'fields', 'size'])
+                cases.append(dict(src=wsrc, op='parse', data=d[:3]))
+    # a delimited window that is wholly present but too small for what it holds: the member inside the window that ran out is named
+    win = 'Struct("a"/Byte, "b"/Int16ub, "c"/Byte)'
+    for wsrc, d, names in [('Struct("n"/Byte, "body"/FixedSized(this.n, %s))' % win, b'\x02\x01\x00\x02\x03\xff', ['body', 'b']),
+                           ('Struct("n"/Byte, "body"/FixedSized(this.n, %s))' % win, b'\x03\x01\x00\x02\x03\xff', ['body', 'c']),
+                           ('Struct("n"/Byte, "body"/FixedSized(this.n, %s))' % win, b'\x00\x01\x00\x02\x03\xff', ['body', 'a']),
+                           ('Struct("body"/FixedSized(2, %s), "t"/Byte)' % win, b'\x01\x00\x02\x03\xff', ['body', 'b']),
+                           ('Struct("p"/Prefixed(Byte, %s), "t"/Byte)' % win, b'\x02\x01\x00\x02\x03\xff', ['p', 'b']),
+                           ('Struct("p"/Prefixed(VarInt, %s), "t"/Byte)' % win, b'\x03\x01\x00\x02\x03\xff', ['p', 'c']),
+                           ('Struct("s"/NullTerminated(%s), "t"/Byte)' % win, b'\x01\x07\x00\x03\xff', ['s', 'b']),
+                           ('Struct("s"/NullStripped(%s))' % win, b'\x01\x07\x02\x00\x00', ['s', 'c']),
+                           ('Struct("o"/Struct("w"/FixedSized(1, Array(2, "e"/Byte))))', b'\x01\x02\x03', ['o', 'w', 'e']),
+                           ('Struct("h"/Byte, "x"/Bitwise(FixedSized(8, Struct("u"/Nibble, "v"/Octet))))', b'\x01\x02\x03', ['x', 'v'])]:
+        acc.check('parse_path', wsrc, data=d, names=names)
+        cases.append(dict(src=wsrc, op='parse', data=d))
     # bit-level members of variable size (the streamed path), cut at every byte: the member that runs out of bits is named
     bsrc = 'Struct("bits"/Bitwise(Struct("n"/Nibble, "rsv"/Nibble, "items"/Array(this.n, "it"/BitsInteger(12)))), "t"/Byte)'
     bdata = C.get(bsrc).build(dict(bits=dict(n=2, rsv=0, items=[1, 2]), t=7))
